@@ -84,6 +84,7 @@ type c11Report struct {
 	Goroutines  int                `json:"goroutines"`
 	GOMAXPROCS  int                `json:"gomaxprocs"`
 	Panics      []string           `json:"panics"`
+	Stalls      []string           `json:"stalls"`
 }
 
 var c11Words = []string{"list", "files", "directory", "find", "search", "text", "compress", "archive", "extract", "copy",
@@ -544,6 +545,154 @@ func c11stress(args []string) int {
 			mu.Unlock()
 		}
 		rep.Calls["shared-options searches"] = nShared.Load()
+	}
+	// ---------------- statistics readers hammering the cache while searches run (a reader that re-enters a lock it already holds
+	// deadlocks as soon as a writer queues up between its two acquisitions), with a watchdog: no completed operation for 8 s is a stall
+	{
+		fresh := database.NewCachedDatabase(db)
+		var progress atomic.Int64
+		stop := make(chan struct{})
+		var pw sync.WaitGroup
+		for g := 0; g < 4; g++ {
+			pw.Add(1)
+			go func() {
+				defer pw.Done()
+				for {
+					select {
+					case <-stop:
+						return
+					default:
+					}
+					st := fresh.GetCacheStats()["search"]
+					if st.Size < 0 || st.Size > st.Capacity {
+						mu.Lock()
+						rep.LruFails = append(rep.LruFails, fmt.Sprintf("implausible cache stats while polling %+v", st))
+						mu.Unlock()
+					}
+					progress.Add(1)
+				}
+			}()
+		}
+		done := make(chan struct{})
+		go func() {
+			var sw sync.WaitGroup
+			for g := 0; g < 8; g++ {
+				sw.Add(1)
+				go func(g int) {
+					defer sw.Done()
+					defer notePanic("polled-cache searcher")
+					gr := NewRng(*seed, uint64(7000+g), "c11stress-poll")
+					for it := 0; it < 250; it++ {
+						c := live[gr.Intn(len(live))]
+						if got := c11Conv(db, fresh.SearchWithOptionsAndCache(c.Query, c.Opts)); !c11Equal(got, c.exp) {
+							record("cached search while statistics are polled", c, got)
+						}
+						if it%40 == 39 {
+							fresh.InvalidateCache()
+						}
+						progress.Add(1)
+					}
+				}(g)
+			}
+			sw.Wait()
+			close(done)
+		}()
+		last, lastChange := int64(-1), time.Now()
+	watch:
+		for {
+			select {
+			case <-done:
+				break watch
+			case <-time.After(100 * time.Millisecond):
+				if p := progress.Load(); p != last {
+					last, lastChange = p, time.Now()
+				} else if time.Since(lastChange) > 8*time.Second {
+					rep.Stalls = append(rep.Stalls, fmt.Sprintf("no cache operation completed for 8s with 4 goroutines reading GetCacheStats and 8 running cached searches (%d operations had completed): the cache is deadlocked", last))
+					b, _ := json.MarshalIndent(rep, "", " ")
+					os.WriteFile(filepath.Join(*outDir, "report.json"), b, 0o644)
+					fmt.Println("c11stress: STALL " + rep.Stalls[0])
+					os.Exit(4)
+				}
+			}
+		}
+		close(stop)
+		pw.Wait()
+		rep.Calls["polled-cache operations"] = progress.Load()
+	}
+	// ---------------- bursts of requests that share query and scalar options and differ only in the collection-valued options
+	// (platform list, boost table), fired together right after an invalidation: each must get ITS answer, not a neighbour's
+	{
+		type variant struct {
+			o   database.SearchOptions
+			exp []c11Res
+		}
+		type group struct {
+			q  string
+			vs []variant
+		}
+		var groups []group
+		for _, c := range live {
+			if len(groups) >= 12 || len(c.exp) == 0 {
+				continue
+			}
+			base := c.Opts
+			base.AllPlatforms = false
+			mk := func(pl []string, boosts map[string]float64) database.SearchOptions {
+				o := base
+				o.Platforms, o.ContextBoosts = pl, boosts
+				return o
+			}
+			w := strings.Fields(strings.ToLower(c.Query))
+			if len(w) == 0 {
+				continue
+			}
+			os4 := []database.SearchOptions{mk(nil, nil), mk([]string{"windows"}, nil), mk([]string{"linux", "macos"}, nil), mk(nil, map[string]float64{w[0]: 3.0})}
+			g := group{q: c.Query}
+			okG := true
+			for _, o := range os4 {
+				a := c11Conv(db, db.SearchUniversal(c.Query, o))
+				if !c11Equal(a, c11Conv(db, db.SearchUniversal(c.Query, o))) {
+					okG = false
+				}
+				g.vs = append(g.vs, variant{o, a})
+			}
+			distinct := false
+			for _, v := range g.vs[1:] {
+				if !c11Equal(v.exp, g.vs[0].exp) {
+					distinct = true
+				}
+			}
+			if okG && distinct {
+				groups = append(groups, g)
+			}
+		}
+		burst := database.NewCachedDatabase(db)
+		var nBurst atomic.Int64
+		for round := 0; round < 40 && len(groups) > 0; round++ {
+			g := groups[round%len(groups)]
+			burst.InvalidateCache()
+			start := make(chan struct{})
+			var bw sync.WaitGroup
+			for rep2 := 0; rep2 < 2; rep2++ {
+				for _, v := range g.vs {
+					bw.Add(1)
+					go func(v variant) {
+						defer bw.Done()
+						defer notePanic("burst goroutine")
+						<-start
+						got := c11Conv(db, burst.SearchWithOptionsAndCache(g.q, v.o))
+						nBurst.Add(1)
+						if !c11Equal(got, v.exp) {
+							record("simultaneous cache misses differing only in platform list / boost table", &c11Case{Query: g.q, Opts: v.o, exp: v.exp}, got)
+						}
+					}(v)
+				}
+			}
+			close(start)
+			bw.Wait()
+		}
+		rep.Calls["burst searches"] = nBurst.Load()
+		rep.Calls["burst groups"] = int64(len(groups))
 	}
 	rep.Calls["SearchUniversal"] = nDirect.Load()
 	rep.Calls["SearchWithOptionsAndCache"] = nCached.Load()
